@@ -113,6 +113,10 @@ def check(run) -> None:
             run.cov["compile_fail_see_C06"] = run.cov.get("compile_fail_see_C06", 0) + 1
             run.notes.append(f"compile failure (C06): {o['id']}") if len(run.notes) < 8 else None
             continue
+        if o.get("hang"):
+            run.violation(f"scenario {o['id']}: the firmware never finishes setup() + {3} loop() passes (phase order: a statement does not return)",
+                          {"scenario": o["sc"], "script": o["src"], "hang": True, "events": o.get("first_events")})
+            continue
         traces.append(o["trace"])
     # a decorated scenario is compared with its plain twin (same scenario without the decoration)
     plain = {t["id"]: t for t in traces}
@@ -159,6 +163,10 @@ def replay(path: str) -> int:
     r = json.load(open(path))
     if "scenario" in r:
         o = board.run_scenario(r["scenario"])
+        if o.get("hang"):
+            print(json.dumps({"hang": True}))
+            print(f"VIOLATION property=C05 replay={path}")
+            return 1
         if "trace" not in o:
             print(json.dumps({k: o.get(k) for k in ("transpile", "msg", "compile")}))
             return 0
